@@ -300,7 +300,7 @@ Definition read_definition (e : env) (ts : list mtok) : option (env * list mtok)
     | LIdent =>
       match r with
       | lp :: r1 =>
-        if negb (m_sp lp) && is lp LP then
+        if negb (m_sp lp) && negb (m_bol lp) && is lp LP then       (* a "(" starts a parameter list only on the same line, directly after the name (730c5b4) *)
           match read_params (S (length r1)) true r1 with
           | Some (ps, va, rest) => let (body, rest') := take_line rest in Some ((m_txt nm, MC false ps va body) :: e, rest')
           | None => None
